@@ -199,7 +199,7 @@ def _sample_values():
         None, True, False, 0, 5, -3, 300, 2.0, "", "abc", "a'b", "a/b", "a//b/", b"ab", b"", PosixPath("a/b"), PosixPath("."),
         [], [1, 2], ["a", "b"], [1, 300], [[1]], [1, True, 1.0, 2], [True, 0], [1.0], [PosixPath("x"), "it's", None, 2.0, b"q", (1, "a")],
         (1, 2), (), ("a",), {1, 2}, frozenset({1}), {"a": 1}, {}, {1: "x", 2: [1]}, MultiInputObj([1]), range(3),
-        {1: 2}.keys(), {1: 2}.values(), [(1, 2), (3, 4)], [frozenset({1}), frozenset({1})], [(1, 2), (1.0, 2)],
+        {1: 2}.keys(), {1: 2}.values(), [{1: [2]}.values(), {1: [2]}.values()], [{1: 2}.keys()], [range(2), range(2)], [(1, 2), (3, 4)], [frozenset({1}), frozenset({1})], [(1, 2), (1.0, 2)],
     ]  # fmt: skip
 
 
